@@ -321,3 +321,69 @@ func ruleC09R3(c *Ctx) {
 	c.floor("C09.R3", "table lookups by facility / severity in Parse", tables, 2)
 	c.floor("C09.R3", "index/slice expressions of the parser", len(res), 15)
 }
+
+// R5: the clause "for any numeric offset" is carried by package time, not by arithmetic of this module: the offset given to
+// time.FixedZone is what (time.Time).Zone reports for the time.Parse result of the zone text with a constant layout. The
+// analysis does not decide integer arithmetic on offsets (sign, hours, minutes); if the module starts to compute them
+// itself the clause is undecided here, and undecided fails.
+func init() {
+	register("C13", "C13.R5", ruleC13R5)
+}
+
+func ruleC13R5(c *Ctx) {
+	n := 0
+	for _, fn := range c.P.universe {
+		if relPkg(fnPkgPath(fn)) != "transform/tparsetime" {
+			continue
+		}
+		for _, s := range callsIn(fn) {
+			f := s.Common().StaticCallee()
+			if f == nil {
+				continue
+			}
+			switch extName(f) {
+			case "time.FixedZone":
+				n++
+				off := strip(s.Common().Args[1])
+				okOff := false
+				why := "the offset is " + canonOf(off)
+				if ex, ok := off.(*ssa.Extract); ok && ex.Index == 1 {
+					if zc, ok := ex.Tuple.(*ssa.Call); ok && zc.Common().StaticCallee() != nil && extName(zc.Common().StaticCallee()) == "(time.Time).Zone" {
+						recv := strip(zc.Common().Args[0])
+						if pe, ok := recv.(*ssa.Extract); ok && pe.Index == 0 {
+							if pc, ok := pe.Tuple.(*ssa.Call); ok && pc.Common().StaticCallee() != nil && extName(pc.Common().StaticCallee()) == "time.Parse" {
+								// constant layout(s)
+								okLayout := true
+								var chk func(v ssa.Value, d int)
+								chk = func(v ssa.Value, d int) {
+									switch x := strip(v).(type) {
+									case *ssa.Const:
+									case *ssa.Phi:
+										if d < 4 {
+											for _, e := range x.Edges {
+												chk(e, d+1)
+											}
+										}
+									default:
+										okLayout = false
+									}
+								}
+								chk(pc.Common().Args[0], 0)
+								okOff = okLayout
+								if !okLayout {
+									why = "the layout given to time.Parse is not a constant"
+								}
+							}
+						}
+					}
+				}
+				c.check(okOff, "C13.R5", fn, "the zone offset is computed by package time", s.Pos(),
+					"FixedZone(z.Zone()) of z = time.Parse(<constant layout>, zone text)",
+					"UNDECIDED (counts as failure): the numeric offset handed to time.FixedZone is computed by this module ("+why+") instead of being taken from time.Parse(…).Zone(): sign / hour / minute arithmetic is not decided by this analysis, so 'exact for any numeric offset' is not shown")
+			case "time.LoadLocation", "time.LoadLocationFromTZData":
+				c.bad("C13.R5", fn, "the zone offset is computed by package time", s.Pos(), "UNDECIDED: a location is loaded by name; the property speaks of numeric offsets")
+			}
+		}
+	}
+	c.floor("C13.R5", "time.FixedZone calls in transform/tparsetime", n, 1)
+}
